@@ -476,7 +476,7 @@ def tv_codec(jid, n=300, seed=0):
     for g in sorted(golden)[:60]: items.append({'family': 'decode', 'mappings': g})
     with tempfile.NamedTemporaryFile('w', suffix='.json', delete=False) as f:
         json.dump({'family': 'batch', 'items': items}, f); path = f.name
-    binp = os.path.join(api.VERIF, '.cache', 'replay-target-debug', 'debug', 'verif_replay')
+    binp = os.environ.get('VERIF_REPLAY_DEBUG') or os.path.join(api.VERIF, '.cache', 'replay-target-debug', 'debug', 'verif_replay')
     r = subprocess.run([binp, path], capture_output=True, text=True, timeout=120)
     os.unlink(path)
     native = json.loads(r.stdout.strip().split('\n')[-1])['results']
